@@ -18,7 +18,8 @@ CTX = "src/miniscript/context.rs"
 
 DROPPED = [
     "sat_dissat: the `for item in node.post_order_iter()` loop, `stack.push(..)` and the final `assert_eq!(stack.len(), 1)` (traversal contract, DESIGN 3.2); the fn-pointer selection `min_fn` / `thresh_fn` is specialised into a malleable and a non-malleable instance (R6)",
-    "sat_dissat: the Thresh arm (drain/map/unzip/fold) is excluded (R9); Satisfaction::{thresh, thresh_mall, multi, multi_a} (sorting, max_by_key, closures) are consumed through assumed contracts and covered bounded by Kani (unit k02_multi)",
+    "sat_dissat: the Thresh arm is outlined verbatim into the function sat_dissat_thresh_arm_{mall,nonmall}(thresh, stack, stfr) (R17: `PAT => BODY` -> `PAT => f(captured variables)`; `fn f(..) BODY`) so that its loops are verified once, not once per case; in it `stack.drain(stack.len() - n..).map(|SatDissat { dissat, sat }| (dissat, sat)).unzip()` -> split_top(stack, n) (R15, trusted std semantics), the two folds become loops (R14, unit c02_multi's fold_to_loop; `.iter().cloned()` yields `x.clone()`), `thresh_fn` is specialised (R6)",
+    "Satisfaction::{thresh, thresh_mall, multi, multi_a} are consumed through the contracts proved in unit c02_multi; Threshold::{clone, into_sorted_bip67, into_sorted_bip67_xonly} are the stubs of unit c04_encode (same text: the BIP67 orders are the uninterpreted functions bip67_sorted / bip67_sorted_xonly the encoder's templates use)",
     "`a < b` on Witness is replaced by the stub witness_lt whose contract is the verified contract of the hand-written `cmp`; witness_size is uninterpreted",
 ]
 
@@ -117,6 +118,9 @@ impl<T: PartialEq> vstd::std_specs::cmp::PartialEqSpecImpl for Witness<T> {
     open spec fn obeys_eq_spec() -> bool { true }
     open spec fn eq_spec(&self, other: &Witness<T>) -> bool { *self == *other }
 }
+// derived Clone returns an equal value (assumption, listed; R13: these impls stand for the `Clone` of the derives)
+impl<T: Clone> Clone for Witness<T> { #[verifier::external_body] fn clone(&self) -> (r: Self) ensures r == *self { unimplemented!() } }
+impl<T: Clone> Clone for Satisfaction<T> { #[verifier::external_body] fn clone(&self) -> (r: Self) ensures r == *self { unimplemented!() } }
 
 // ---- abstraction: a library Satisfaction as the table sees it --------------------------------------
 //  kind: 0 = a concrete witness (Stack), 1 = Unavailable (we cannot build it, a third party might),
@@ -165,9 +169,18 @@ def oracle_text():
         return f.read()
 
 
+def _derive_no_clone(m):
+    keep = [x.strip() for x in m.group(1).split(",") if x.strip() in ("Copy", "PartialEq", "Eq")]
+    return "#[derive(%s)]" % ", ".join(keep) if keep else ""
+
+
+# R13: the derived `Clone` of Witness / Satisfaction is replaced by an explicit impl with the specification
+# "returns an equal value" (GLUE): Verus gives derived Clone impls of non-Copy types no spec.  Type level, so that no
+# `.clone()` call site has to be recognised by the name of a local variable.
+DERIVE_NO_CLONE = sub("R13-derive-clone", r"#\[derive\(([^)]*)\)\]", _derive_no_clone, required=False)
 R3_WITNESS = sub("R3", r"&Witness::", "Witness::")
 R4_EXTEND = lit("R4", "a.extend(b);", "vec_extend(&mut a, b);")
-R7_LT = sub("R7-witness-lt", r"sat1\.stack < sat2\.stack", "witness_lt(&sat1.stack, &sat2.stack)")
+R7_LT = sub("R7-witness-lt", r"\b(\w+)\.stack < (\w+)\.stack\b", r"witness_lt(&\1.stack, &\2.stack)")
 
 
 def build(repo):
@@ -191,17 +204,23 @@ trait ScriptContext: Sized {
 """)
     vf.item(SAT, "enum:SchnorrSigType", rewrites=[DERIVE_TRIM])
     vf.item(SAT, "enum:Placeholder", rewrites=[DERIVE_TRIM])
-    vf.item(SAT, "enum:Witness", rewrites=[DERIVE_TRIM])
-    vf.item(SAT, "struct:Satisfaction", rewrites=[DERIVE_TRIM])
+    vf.item(SAT, "enum:Witness", rewrites=[DERIVE_NO_CLONE])
+    vf.item(SAT, "struct:Satisfaction", rewrites=[DERIVE_NO_CLONE])
     vf.item(SD, "struct:SatDissat")
     vf.raw(GLUE)
-    vf.trust("PartialEqSpecImpl for Witness<T>", "derived PartialEq is structural equality; derived Clone returns an equal value")
+    vf.trust("PartialEqSpecImpl for Witness<T>; impl Clone for Witness<T> / Satisfaction<T> (external_body)", "derived PartialEq is structural equality; derived Clone returns an equal value (R13: the derive is replaced by an impl carrying that specification)")
     vf.raw(oracle_text())
     algebra(vf)
     return vf
 
 
 def algebra(vf):
+    leaf_algebra(vf)
+    steps(vf)
+
+
+def leaf_algebra(vf):
+    """Everything below the per-node step (also emitted, contract only, by unit c02_multi)."""
     P = ("C01", "C11")
     with vf.block("impl<Pk: MiniscriptKey> Witness<Placeholder<Pk>>"):
         vf.fn(SAT, "impl:Ord for Witness<Placeholder<Pk>>/fn:cmp", qual="Witness", props=("C03", "C19", "C11"), contract=Contract(ensures=[
@@ -223,7 +242,6 @@ def algebra(vf):
         ]))
     satisfaction_algebra(vf)
     leaves(vf)
-    steps(vf)
 
 
 SATIMPL = "impl:Satisfaction<Placeholder<Pk>>"
@@ -363,6 +381,10 @@ STEP_SPEC = r"""
 // ---- per-node step of sat_dissat: children = the top `arity` entries of the stack (post-order: the
 // last child is on top) -------------------------------------------------------------------------------
 spec fn top<Pk: MiniscriptKey>(s: Seq<SatDissat<Pk>>, i: int) -> SatDissat<Pk> { s[s.len() - 1 - i] }
+// the top n entries = the n children's entries, first child first
+spec fn top_entries<Pk: MiniscriptKey>(s: Seq<SatDissat<Pk>>, n: int) -> Seq<SatDissat<Pk>> { Seq::new(n as nat, |j: int| s[s.len() - n + j]) }
+spec fn top_sats<Pk: MiniscriptKey>(s: Seq<SatDissat<Pk>>, n: int) -> Seq<Satisfaction<Placeholder<Pk>>> { Seq::new(n as nat, |j: int| top_entries(s, n)[j].sat) }
+spec fn top_dissats<Pk: MiniscriptKey>(s: Seq<SatDissat<Pk>>, n: int) -> Seq<Satisfaction<Placeholder<Pk>>> { Seq::new(n as nat, |j: int| top_entries(s, n)[j].dissat) }
 spec fn arity<Pk: MiniscriptKey, Ctx: ScriptContext>(t: Terminal<Pk, Ctx>) -> nat {
     match t {
         Terminal::Alt(_) | Terminal::Swap(_) | Terminal::Check(_) | Terminal::DupIf(_) | Terminal::Verify(_)
@@ -382,6 +404,8 @@ spec fn node_typed<Pk: MiniscriptKey, Ctx: ScriptContext>(t: Terminal<Pk, Ctx>) 
     &&& (t matches Terminal::OrB(x, z) ==> spec_or_b_ok(ac(x), ac(z)))
     &&& (t matches Terminal::OrC(x, z) ==> spec_or_c_ok(ac(x), ac(z)))
     &&& (t matches Terminal::OrD(x, z) ==> spec_or_d_ok(ac(x), ac(z)))
+    // thresh: X1 is Bdu, the others are Wdu -- all children are dissatisfiable
+    &&& (t matches Terminal::Thresh(th) ==> forall|j: int| 0 <= j < th.spec_n() ==> cd(#[trigger] th.elems()[j]))
 }
 // the specification's `d` for the node
 spec fn node_d<Pk: MiniscriptKey, Ctx: ScriptContext>(t: Terminal<Pk, Ctx>) -> bool {
@@ -444,6 +468,7 @@ spec fn children_inv<Pk: MiniscriptKey, Ctx: ScriptContext, S: AssetProvider<Pk>
     &&& (t matches Terminal::OrC(x, y) ==> sd_inv(stfr, malleable, cd(x), top(s, 1)) && sd_inv(stfr, malleable, cd(y), top(s, 0)))
     &&& (t matches Terminal::OrI(x, y) ==> sd_inv(stfr, malleable, cd(x), top(s, 1)) && sd_inv(stfr, malleable, cd(y), top(s, 0)))
     &&& (t matches Terminal::AndOr(x, y, z) ==> sd_inv(stfr, malleable, cd(x), top(s, 2)) && sd_inv(stfr, malleable, cd(y), top(s, 1)) && sd_inv(stfr, malleable, cd(z), top(s, 0)))
+    &&& (t matches Terminal::Thresh(th) ==> forall|j: int| 0 <= j < th.spec_n() ==> sd_inv(stfr, malleable, cd(th.elems()[j]), #[trigger] top_entries(s, th.spec_n() as int)[j]))
 }
 spec fn a<Pk: MiniscriptKey>(s: Satisfaction<Placeholder<Pk>>) -> ASat<Pk> { abs_sat(s) }
 spec fn one<Pk: MiniscriptKey>() -> Placeholder<Pk> { Placeholder::PushOne }
@@ -455,10 +480,33 @@ spec fn is_choice<Pk: MiniscriptKey>(malleable: bool, r: Satisfaction<Placeholde
 
 #[verifier::external_body]
 fn excluded_arm<Pk: MiniscriptKey>() -> SatDissat<Pk> { unimplemented!() }
-// derived Clone returns an equal value (assumption; Verus gives derived non-Copy Clone impls no spec)
+// R15: `stack.drain(stack.len() - n..).map(|SatDissat { dissat, sat }| (dissat, sat)).unzip()`: the top n entries leave the
+// stack, in stack order, split into (dissatisfactions, satisfactions); `stack.len() - n` underflows / drain panics when
+// the stack is shorter: precondition
 #[verifier::external_body]
-fn sat_clone<Pk: MiniscriptKey>(s: &Satisfaction<Placeholder<Pk>>) -> (r: Satisfaction<Placeholder<Pk>>) ensures r == *s { unimplemented!() }
+fn split_top<Pk: MiniscriptKey>(stack: &mut Vec<SatDissat<Pk>>, n: usize) -> (r: (Vec<Satisfaction<Placeholder<Pk>>>, Vec<Satisfaction<Placeholder<Pk>>>))
+    requires n <= old(stack)@.len(),
+    ensures final(stack)@ == old(stack)@.take(old(stack)@.len() - n), r.0@ == top_dissats(old(stack)@, n as int), r.1@ == top_sats(old(stack)@, n as int),
+{ unimplemented!() }
 """
+
+
+def thresh_arm_clauses(mall, th, guard=""):
+    """Row thresh(k, X_1..X_n) for the per-node step: children = the top n entries of the stack (X_n on top)."""
+    from units import c02_multi as C2
+    M = "true" if mall else "false"
+    S0 = "old(stack)@"
+    n, k = "%s.spec_n() as int" % th, "%s.spec_k() as int" % th
+    sats, dis = "top_sats(%s, %s)" % (S0, n), "top_dissats(%s, %s)" % (S0, n)
+    g = (guard + " ==> ") if guard else ""
+    gk = ((guard,) if guard else ()) + ("%s.spec_k() != %s.spec_n()" % (th, th),)
+    return [
+        Clause("dsat_is_all_dsats_juxtaposed", ("C01", "C17", "C02"), g + "abs_sat(r.dissat) == t_concat(abs_all(%s), %s)" % (dis, n)),
+        Clause("sat_is_all_sats_when_k_is_n", ("C01", "C02", "C03", "C17"), g + "(%s.spec_k() == %s.spec_n() ==> abs_sat(r.sat) == t_concat(abs_all(%s), %s))" % (th, th, sats, n)),
+    ] + C2.thresh_clauses(mall, r="r.sat", k=k, n=n, sats=sats, dis=dis, guards=gk) + [
+        Clause("frame_pops_exactly_n_children", ("C01", "C11"), g + "final(stack)@ == %s.take(%s.len() - %s.spec_n())" % (S0, S0, th)),
+        Clause("dissat_available_when_d", ("C02", "C03", "C11"), g + "sd_inv(stfr, %s, true, r)" % M),
+    ]
 
 
 def step_cases(mall):
@@ -508,19 +556,88 @@ def step_cases(mall):
     # raw pkh: the key behind the hash may be unknown (dissatisfaction then unavailable although the type says d):
     # the row is claimed, the d-invariant is not
     case("RawPkH", [Clause("row", ALL, "*term matches Terminal::RawPkH(pkh) ==> (wkind(r.dissat.stack) == 0 ==> wseq(r.dissat.stack).len() == 2 && wseq(r.dissat.stack)[0] == zero::<Pk>() && (wseq(r.dissat.stack)[1] matches Placeholder::PubkeyHash(h, n) && h == pkh)) && no_locks_no_sig(r.dissat) && wkind(r.dissat.stack) != 2 && (wkind(r.sat.stack) == 0 <==> (match leaf_hash { Some(lh) => stfr.raw_pkh_tap_leaf_sig(&(pkh, lh)) is Some, None => stfr.raw_pkh_ecdsa_sig(&pkh) is Some })) && (wkind(r.sat.stack) != 0 ==> wkind(r.sat.stack) == 2) && r.sat.has_sig && no_locks(r.sat)")], claim_inv=False)
-    case("Multi", [
-        Clause("dsat_is_k_plus_1_zeros", P12, "*term matches Terminal::Multi(th) ==> wkind(r.dissat.stack) == 0 && wseq(r.dissat.stack) =~= zeros::<Pk>(th.spec_k() + 1) && no_locks_no_sig(r.dissat)"),
-        Clause("sat_iff_k_signatures_available", ALL, "*term matches Terminal::Multi(th) ==> (wkind(r.sat.stack) == 0 <==> count_avail(stfr, th.elems(), 0, th.spec_n() as int, None) >= th.spec_k()) && (wkind(r.sat.stack) != 0 ==> wkind(r.sat.stack) == 2)"),
-        Clause("sat_is_zero_then_k_signatures_in_key_order", ALL, "*term matches Terminal::Multi(th) ==> (wkind(r.sat.stack) == 0 ==> wseq(r.sat.stack).len() == th.spec_k() + 1 && wseq(r.sat.stack)[0] == zero::<Pk>() && sigs_in_key_order(wseq(r.sat.stack).drop_first(), stfr, th.elems(), th.spec_n() as int, None) && r.sat.has_sig) && no_locks(r.sat)"),
-    ])
-    case("MultiA", [
-        Clause("dsat_is_n_zeros", P12, "*term matches Terminal::MultiA(th) ==> wkind(r.dissat.stack) == 0 && wseq(r.dissat.stack) =~= zeros::<Pk>(th.spec_n() as int) && no_locks_no_sig(r.dissat)"),
-        Clause("sat_iff_k_signatures_available", ALL, "*term matches Terminal::MultiA(th) ==> (wkind(r.sat.stack) == 0 <==> count_avail(stfr, th.elems(), 0, th.spec_n() as int, Some(leaf_hash->Some_0)) >= th.spec_k()) && (wkind(r.sat.stack) != 0 ==> wkind(r.sat.stack) == 2)"),
-        Clause("sat_is_sig_or_zero_per_key_in_reverse_order", ALL, "*term matches Terminal::MultiA(th) ==> (wkind(r.sat.stack) == 0 ==> wseq(r.sat.stack).len() == th.spec_n() && count_nonzero(wseq(r.sat.stack)) == th.spec_k() && r.sat.has_sig && (forall|j: int| 0 <= j < th.spec_n() ==> multi_a_slot(#[trigger] wseq(r.sat.stack)[j], stfr, th.elems(), j, Some(leaf_hash->Some_0)))) && no_locks(r.sat)"),
-    ])
-    for v in ("SortedMulti", "SortedMultiA", "Thresh"):
-        out.append((v, "*term is %s" % v, []))
+    def multi_row(v, keys, a):
+        """The rows multi / multi_a for the key list `keys` (k and n of the node's threshold `th`)."""
+        g = "*term matches Terminal::%s(th) ==> " % v
+        if not a:
+            return [
+                Clause("dsat_is_k_plus_1_zeros", P12, g + "wkind(r.dissat.stack) == 0 && wseq(r.dissat.stack) =~= zeros::<Pk>(th.spec_k() + 1) && no_locks_no_sig(r.dissat)"),
+                Clause("sat_iff_k_signatures_available", ALL, g + "(wkind(r.sat.stack) == 0 <==> count_avail(stfr, %s, 0, th.spec_n() as int, None) >= th.spec_k()) && (wkind(r.sat.stack) != 0 ==> wkind(r.sat.stack) == 2)" % keys),
+                Clause("sat_is_zero_then_k_signatures_in_key_order", ALL, g + "(wkind(r.sat.stack) == 0 ==> wseq(r.sat.stack).len() == th.spec_k() + 1 && wseq(r.sat.stack)[0] == zero::<Pk>() && sigs_in_key_order(wseq(r.sat.stack).drop_first(), stfr, %s, th.spec_n() as int, None) && r.sat.has_sig) && no_locks(r.sat)" % keys),
+            ]
+        return [
+            Clause("dsat_is_n_zeros", P12, g + "wkind(r.dissat.stack) == 0 && wseq(r.dissat.stack) =~= zeros::<Pk>(th.spec_n() as int) && no_locks_no_sig(r.dissat)"),
+            Clause("sat_iff_k_signatures_available", ALL, g + "(wkind(r.sat.stack) == 0 <==> count_avail(stfr, %s, 0, th.spec_n() as int, Some(leaf_hash->Some_0)) >= th.spec_k()) && (wkind(r.sat.stack) != 0 ==> wkind(r.sat.stack) == 2)" % keys),
+            Clause("sat_is_sig_or_zero_per_key_in_reverse_order", ALL, g + "(wkind(r.sat.stack) == 0 ==> wseq(r.sat.stack).len() == th.spec_n() && count_nonzero(wseq(r.sat.stack)) == th.spec_k() && r.sat.has_sig && (forall|j: int| 0 <= j < th.spec_n() ==> multi_a_slot(#[trigger] wseq(r.sat.stack)[j], stfr, %s, j, Some(leaf_hash->Some_0)))) && no_locks(r.sat)" % keys),
+        ]
+    case("Multi", multi_row("Multi", "th.elems()", False))
+    case("MultiA", multi_row("MultiA", "th.elems()", True))
+    # sortedmulti(k, keys) is multi(k, keys in BIP67 order of the 33-byte serialisation), sortedmulti_a(k, keys) is
+    # multi_a(k, keys in the order of the 32-byte x-only serialisation): the order in which the SCRIPT lists the keys
+    # (unit c04_encode: templates SortedMulti / SortedMultiA over the same bip67_sorted / bip67_sorted_xonly)
+    def in_script_order(clauses):
+        return [Clause("satisfies_the_keys_in_script_order__" + c.tag, ("C01", "C02") + tuple(x for x in c.props if x not in ("C01", "C02")), c.text) for c in clauses]
+    case("SortedMulti", in_script_order(multi_row("SortedMulti", "bip67_sorted(th.elems())", False)))
+    case("SortedMultiA", in_script_order(multi_row("SortedMultiA", "bip67_sorted_xonly(th.elems())", True)))
+    case("Thresh", thresh_arm_clauses(mall, "th", "*term matches Terminal::Thresh(th)"), claim_inv=False)
     return out
+
+
+def outline_arm(holder, call):
+    """R17: the body of a match arm becomes a function of the variables it uses: `PAT => BODY` -> `PAT => <call>`;
+    BODY is stashed verbatim in `holder` and emitted by the caller as `fn f(..) -> T BODY`."""
+    from vlib.verus import rule
+
+    @rule("R17-outline-arm")
+    def rw(body):
+        holder["body"] = body if body.lstrip().startswith("{") else "{ %s }" % body
+        return call
+    return rw
+
+
+def thresh_arm(vf, holder, mall, name, P):
+    """The Thresh arm of sat_dissat, outlined: text of /repo with the iterator plumbing rewritten."""
+    from units import c02_multi as C2
+    M = "true" if mall else "false"
+    facts = """                    provider_consistent(stfr),
+                    forall|j: int| 0 <= j < fold_src@.len() ==> locks_confirmed(stfr, #[trigger] fold_src@[j]),"""
+    # 1st fold: the dissatisfaction.  Children of thresh are `d`: every dissatisfaction is unsigned and available
+    # (malleable mode) / possible (non-malleable mode), and so is their juxtaposition (step invariant sd_inv)
+    dis_shape = dict(invariant="""                    fold_i <= fold_src@.len(),
+%s
+                    forall|j: int| 0 <= j < fold_src@.len() ==> dissat_of_d_child(%s, #[trigger] fold_src@[j]), //@inv dissat_available_when_d [C02,C03,C11]
+                    abs_sat(%%(acc)s) == t_concat(abs_all(fold_src@), fold_i as int), //@inv dsat_is_all_dsats_juxtaposed [C01,C17,C02]
+                    locks_confirmed(stfr, %%(acc)s), //@inv dissat_available_when_d [C02,C03,C11]
+                    dissat_of_d_child(%s, %%(acc)s), //@inv dissat_available_when_d [C02,C03,C11]""" % (facts, M, M))
+    # a dissatisfaction put together from the children's witness stacks only (Witness accumulator): nothing is known
+    # about its flag and locks beyond what the surrounding expression says
+    dis_shape_wit = dict(invariant="""                    fold_i <= fold_src@.len(),
+                    forall|j: int| 0 <= j < fold_src@.len() ==> dissat_of_d_child(%s, #[trigger] fold_src@[j]), //@inv dissat_available_when_d [C02,C03,C11]
+                    (if %s { wkind(%%(acc)s) == 0 } else { wkind(%%(acc)s) != 2 }), //@inv dissat_available_when_d [C02,C03,C11]""" % (M, M))
+    # 2nd fold (k == n): all satisfactions
+    sat_shape = dict(invariant="""                    fold_i <= fold_src@.len(),
+%s
+                    abs_sat(%%(acc)s) == t_concat(abs_all(fold_src@), fold_i as int), //@inv sat_is_all_sats_when_k_is_n [C01,C02,C03,C17]
+                    locks_confirmed(stfr, %%(acc)s), //@inv dissat_available_when_d [C02,C03,C11]""" % facts)
+    EMPTY = r"(Self|Satisfaction)::empty\(\)"
+    text = ("fn %s<Ctx: ScriptContext, Sat: AssetProvider<Pk>>(thresh: &Threshold<Arc<Miniscript<Pk, Ctx>>, 0>, stack: &mut Vec<SatDissat<Pk>>, stfr: &Sat) -> SatDissat<Pk> "
+            % name) + holder["body"]
+    text = vf._apply(text, [
+        sub("R15-drain-unzip", r"stack\s*\.drain\(stack\.len\(\) - ([\w.()]+?)\.\.\)\s*\.map\(\|SatDissat \{ dissat, sat \}\| \(dissat, sat\)\)\s*\.unzip\(\)", r"split_top(stack, \1)"),
+        C2.fold_to_loop([(EMPTY, dis_shape), (r"Witness::", dis_shape_wit)], name="R14-fold-dissat"),
+        C2.fold_to_loop([(EMPTY, sat_shape)], name="R14-fold-sats"),
+        sub("R6", r"\bthresh_fn\(", "Self::thresh_mall(" if mall else "Self::thresh("),
+        const_as_fn("TRIVIAL", required=False),
+    ], "Thresh arm")
+    S0 = "old(stack)@"
+    n = "thresh.spec_n() as int"
+    reg = vf.repo.at(SD, SATIMPL + "/fn:sat_dissat/match:*item.node.as_inner()")
+    vf.fn_text("Satisfaction::" + name, text, Contract(
+        requires=["thresh.wf()", "%s.len() >= thresh.spec_n()" % S0, "provider_consistent(stfr)",
+                  "forall|j: int| 0 <= j < thresh.spec_n() ==> sd_inv(stfr, %s, true, #[trigger] top_entries(%s, %s)[j])" % (M, S0, n),
+                  "sizes_ok(top_sats(%s, %s))" % (S0, n), "sizes_ok(top_dissats(%s, %s))" % (S0, n)],
+        ensures=thresh_arm_clauses(mall, "thresh"), canary=False), P, file=SD, lines=reg.lines(), anchor="sat_dissat/arm:Terminal::Thresh")
+    C2.register_named_invariants(vf, "Satisfaction::" + name)
 
 
 def steps(vf):
@@ -529,30 +646,43 @@ def steps(vf):
     vf.raw(T.ABS)
     vf.trust("PartialEqSpecImpl for Base/Input/Dissat", "derived PartialEq on field-less enums is structural equality")
     vf.raw(STEP_SPEC)
-    # Satisfaction::multi / multi_a: consumed through the contracts proved in unit c02_multi (same clause text)
+    # Satisfaction::{multi, multi_a, thresh, thresh_mall}: consumed through the contracts proved in unit c02_multi
     from units import c02_multi as C2
+    from units import c04_encode as C4
     vf.raw(C2.STD_STUBS)
     vf.raw(C2.nary_oracle_text())
     vf.raw(C2.NARY_PROOF)
     C2.multis(C2.AssumedProxy(vf, keep={"multi", "multi_a"}))
-    vf.trust("Satisfaction::{multi, multi_a} (external_body, contract only)", "callee contracts proved on the real bodies in unit c02_multi; the contract text is that unit's (emitted through AssumedProxy)")
-    vf.trust("excluded_arm (external_body)", "R9: arms SortedMulti, SortedMultiA (key sorting), Thresh of sat_dissat are not verified by Verus; nothing is assumed about their result")
-    vf.trust("sat_clone (external_body)", "R13: `x.clone()` on a Satisfaction (derived Clone) returns a value equal to x")
+    C2.threshes(C2.AssumedProxy(vf, keep={"thresh", "thresh_mall"}, raw_ok=(C2.THRESH_PROOF,)))
+    vf.trust("Satisfaction::{multi, multi_a, thresh, thresh_mall} (external_body, contract only)", "callee contracts proved on the real bodies in unit c02_multi; the contract text is that unit's (emitted through AssumedProxy)")
+    vf.trust("vec_take, vec_repeat*, index_of_longest, range_vec, swap_at, sort_indices_* (external_body)", "std stubs of unit c02_multi (R14/R15); only vec_take is used here (fold = loop over into_iter)")
+    # BIP67 orders: the SAME uninterpreted functions and stubs as the encoder's templates (unit c04_encode)
+    n4 = C4.NARY_SPEC
+    vf.raw(n4[n4.index("// BIP67 order of a key list"):n4.index("// what a slice iterator")])
+    vf.raw(n4[n4.index("impl<T: Clone, const MAX: usize> Clone for Threshold"):])
+    vf.trust("Threshold::{clone, into_sorted_bip67, into_sorted_bip67_xonly} stubs (text of unit c04_encode)", "structural clone / BIP67 sort as the uninterpreted permutations bip67_sorted / bip67_sorted_xonly keeping k and n; the encoder's SortedMulti / SortedMultiA templates list the keys in the same two orders")
+    vf.trust("split_top (external_body)", "R15: Vec::drain(len - n..) yields the top n entries in order and removes them; map + unzip split each entry into its two fields")
+    vf.trust("sizes_ok (precondition, Thresh)", "serialized witness sizes are below 2^62 (precondition of the cost comparison in Satisfaction::thresh*)")
     vf.trust("provider_consistent (precondition)", "an AssetProvider answers for one transaction: the absolute (relative) locks it confirms all have the same unit")
     P = ("C01", "C02", "C03", "C17", "C11")
-    excl = {k: "excluded_arm()" for k in ("Terminal::SortedMulti(", "Terminal::SortedMultiA(", "Terminal::Thresh(")}
     with vf.block("impl<Pk: MiniscriptKey + ToPublicKey> Satisfaction<Placeholder<Pk>>"):
         for mall, name, minfn in ((True, "sat_dissat_step_mall", "Self::minimum_mall"), (False, "sat_dissat_step_nonmall", "Self::minimum")):
             M = "true" if mall else "false"
+            arm = "sat_dissat_thresh_arm_" + ("mall" if mall else "nonmall")
+            holder = {}
             vf.step(SD, SATIMPL + "/fn:sat_dissat/match:*item.node.as_inner()", "Satisfaction::" + name,
                     "fn %s<Ctx: ScriptContext, Sat: AssetProvider<Pk>>(term: &Terminal<Pk, Ctx>, stack: &mut Vec<SatDissat<Pk>>, stfr: &Sat, root_has_sig: bool, leaf_hash: Option<TapLeafHash>) -> SatDissat<Pk>" % name,
-                    scrutinee="*term", exclude=excl, props=P,
-                    rewrites=[sub("R6", r"\bmin_fn\(", minfn + "("), const_as_fn("TRIVIAL"),
-                              sub("R13-derived-clone", r"\b([lrabc]_(?:sat|dis))\.clone\(\)", r"sat_clone(&\1)")],
+                    scrutinee="*term", props=P,
+                    arm_rewrites={"Terminal::Thresh(": [outline_arm(holder, "Self::%s(thresh, stack, stfr)" % arm)]},
+                    rewrites=[sub("R6", r"\bmin_fn\(", minfn + "("), const_as_fn("TRIVIAL")],
                     contract=Contract(
                         requires=["old(stack)@.len() >= arity(*term)", "node_typed(*term)", "provider_consistent(stfr)",
                                   "children_inv(stfr, %s, *term, old(stack)@)" % M,
                                   "*term matches Terminal::Multi(th) ==> th.wf()",
-                                  "*term matches Terminal::MultiA(th) ==> th.wf() && leaf_hash is Some"],
-                        ensures=[Clause("frame_pops_exactly_the_children", ("C01", "C11"), "!(*term is Thresh) ==> final(stack)@ == old(stack)@.take(old(stack)@.len() - arity(*term))")]),
+                                  "*term matches Terminal::SortedMulti(th) ==> th.wf()",
+                                  "*term matches Terminal::MultiA(th) ==> th.wf() && leaf_hash is Some",
+                                  "*term matches Terminal::SortedMultiA(th) ==> th.wf() && leaf_hash is Some",
+                                  "*term matches Terminal::Thresh(th) ==> th.wf() && sizes_ok(top_sats(old(stack)@, th.spec_n() as int)) && sizes_ok(top_dissats(old(stack)@, th.spec_n() as int))"],
+                        ensures=[Clause("frame_pops_exactly_the_children", ("C01", "C11"), "final(stack)@ == old(stack)@.take(old(stack)@.len() - arity(*term))")]),
                     cases=step_cases(mall))
+            thresh_arm(vf, holder, mall, arm, P)
